@@ -548,7 +548,7 @@ func describeScript(items []c07Item) []string {
 }
 
 func runC07(c *wk.Ctx) {
-	c.Meta("rule", "scripts from a grammar of client behaviour (start message or junk; work-starts for existing/unknown steps with ok / declared-error / undeclared-output / invalid-data / panicking / gated(slow) handlers and schema-rejected configs; duplicate run IDs; signals for started/unstarted runs with known/unknown/empty signal IDs and valid/invalid data; unknown message IDs; envelopes lacking run_id / data / with wrongly typed payloads; undecodable CBOR: random bytes, indefinite-length, huge length header, wrong field types; client-done followed by more traffic) fed to the real RunATPServer. Faults: end of input at EVERY byte offset of a script (enumerated per script), at message boundaries with stepwise delivery (one message per quiescent point) and in bursts; gated steps released before or after the end of input; output closed early. Oracle: process/goroutine panics, quiescence deadlock monitor, and an offline checker over the tapped output: #terminal messages per run == #accepted work-starts (computed from the delivered bytes by an independent decoder), none for unaccepted runs. non-trivial = script with >= 2 items after the start message; distinct = hash(script bytes, cut, delivery mode)")
+	c.Meta("rule", "scripts from a grammar of client behaviour (start message or junk; work-starts for existing/unknown steps with ok / declared-error / undeclared-output / invalid-data / panicking / gated(slow) handlers and schema-rejected configs; duplicate run IDs; signals for started/unstarted runs with known/unknown/empty signal IDs and valid/invalid data; unknown message IDs; envelopes lacking run_id / data / with wrongly typed payloads; undecodable CBOR: random bytes, indefinite-length, huge length header, wrong field types; client-done followed by more traffic) fed to the real RunATPServer. Faults: end of input at EVERY byte offset of a script (enumerated per script), at message boundaries with stepwise delivery (one message per quiescent point) and in bursts; gated steps released before or after the end of input; output closed early. Oracle: process/goroutine panics, quiescence deadlock monitor, and an offline checker over the tapped output: #terminal messages per run == #accepted work-starts (computed from the delivered bytes by an independent decoder), none for unaccepted runs. non-trivial = script with >= 2 items after the start message; distinct = hash(script bytes, cut, delivery mode) Directed: step 'chain' (input = a single-property object in front of a cycle of single-property objects) with scalars in place of its input; run IDs that differ only in surrounding white space. A step that computes forever is the driver's CPU-time verdict (60 s on one journalled session).")
 	c.Meta("assumptions", []string{"accepted = well-formed envelope with non-empty run_id and step id, fully delivered, before client-done / the first undecodable item / the cut",
 		"the server's output is a buffered pipe (never blocks) unless the case closes it"})
 	c.Floor("sessions", 500)
